@@ -24,8 +24,8 @@ PROFILES = {"C04": "simkit.profiles.c04", "C05": "simkit.profiles.c05", "C16": "
 # runs per tier (fixed counts; the wall cap only stops submission and is reported when it bites)
 TIERS = {
     "C04": {"quick": (8800, 150), "thorough": (200000, 2400)},
-    "C05": {"quick": (40000, 150), "thorough": (1200000, 2400)},
-    "C16": {"quick": (30000, 150), "thorough": (900000, 2400)},
+    "C05": {"quick": (42000, 150), "thorough": (1200000, 2400)},
+    "C16": {"quick": (31000, 150), "thorough": (900000, 2400)},
 }
 MAX_MINIMISED = int(os.environ.get("VERIF_MAX_MIN", "10"))
 
@@ -149,8 +149,8 @@ def main():
     if a.dump_logs:
         merged = kernel.run_batch(profile, a.seed, a.tier, n_runs, a.jobs, 1e9)
         with open(a.dump_logs, "w") as f:
-            for idx, lg in sorted(merged["logs"]):
-                f.write("%d %s\n" % (idx, lg))
+            for idx, lg, rcl in sorted(merged["logs"]):
+                f.write("%d %s %s\n" % (idx, lg, rcl))
             for e in merged["errors"]:
                 f.write("%d ERROR %s\n" % (e["index"], e["error"]))
         print("DIGEST %s runs=%d" % (merged["batch_digest"], merged["runs"]))
